@@ -44,7 +44,8 @@ type MUpload struct {
 	Repo      string
 	Buf       []byte
 	Check     int64 // pending start-offset check (-1: none)
-	Dead      bool  // cancelled, or a commit failed
+	Dead      bool  // cancelled
+	Refused   bool  // a commit was refused: later commits may go on being refused, or not
 	Committed bool
 }
 
@@ -151,7 +152,7 @@ func (m *Model) Canon() string {
 	}
 	us := make([]string, 0, len(m.Uploads))
 	for h, u := range m.Uploads {
-		us = append(us, fmt.Sprintf("u%d:%d/%d/%v/%v", h, len(u.Buf), u.Check, u.Dead, u.Committed))
+		us = append(us, fmt.Sprintf("u%d:%d/%d/%v/%v/%v", h, len(u.Buf), u.Check, u.Dead, u.Refused, u.Committed))
 	}
 	sort.Strings(us)
 	sb.WriteString(strings.Join(us, ","))
@@ -773,20 +774,23 @@ func (m *Model) Step(op *Op, res *Res) (bool, string) {
 			return true, ""
 		}
 		if u.Dead {
-			return m.wantFail(res.Err, "Commit of a cancelled or failed upload")
+			return m.wantFail(res.Err, "Commit of a cancelled upload")
 		}
-		if u.Committed && res.Err != nil {
-			return true, "" // committing a session a second time may be refused
+		if (u.Committed || u.Refused) && res.Err != nil {
+			// committing a session a second time may be refused; so may any commit after
+			// one that was refused (whether a refusal is the end of a session is not
+			// something the statements settle)
+			return true, ""
 		}
 		if !ValidDigest(string(op.Digest)) || Sum(algOf(op.Digest), u.Buf) != op.Digest {
 			ok, why := m.wantFail(res.Err, "Commit with a digest that does not match the written bytes", ociregistry.ErrDigestInvalid)
 			if ok {
-				u.Dead = true
+				u.Refused = true
 			}
 			return ok, why
 		}
 		if algOf(op.Digest) != "sha256" && res.Err != nil {
-			u.Dead = true
+			u.Refused = true
 			return true, "" // non-canonical algorithm: may be refused
 		}
 		if res.Err != nil {
